@@ -99,6 +99,7 @@ class GenA:
         self.in_func = None           # return type of the function being generated (or None at main level)
         self.loop_depth = 0
         self.budget = 0
+        self.derived_in_scope = 0     # values derived from a temporary container placed where a scope ends early
 
     # ---- bookkeeping
     def f(self, name):
@@ -137,7 +138,11 @@ class GenA:
         if allow_temps and r < 0.62:
             T = self.rng.choice([TEXT, TL, ZL, BOX, VT, VZ, VB, BL, VL])
             self.f("role:unused-temporary-eq/%s" % T)
-            return "(%s gleich %s ist)" % (self.expr(T, depth + 1), self.expr(T, depth + 1))
+            dv = self.derived(T, depth + 1) if self.rng.random() < 0.3 else None
+            if dv is not None:
+                self.f("role:derived-from-temporary-in-condition/%s" % T)
+                self.derived_in_scope += 1
+            return "(%s gleich %s ist)" % (dv if dv is not None else self.expr(T, depth + 1), self.expr(T, depth + 1))
         if r < 0.70:
             return "(nicht (%s gleich 1 ist))" % self.cond_arg()
         return "(%s gleich %d ist)" % (self.cond_arg(), self.rng.randint(0, 2))
@@ -182,6 +187,8 @@ class GenA:
         if depth < 3 and self.budget > 0:
             self.budget -= 1
             choices += ["falls", "call"]
+            if T in LISTOF or T in (TEXT, ZL, TL):
+                choices += ["derived"]
             if T == TEXT:
                 choices += ["concat", "concat", "slice", "elem", "field", "anycast", "numtext", "charconcat"]
             elif T in (TL, ZL, BL, VL):
@@ -199,7 +206,19 @@ class GenA:
             return "(%s)" % self.lit(T, depth) if not self.lit_is_atomic(T) else self.lit(T, depth)
         if k == "falls":
             self.f("exit:falls-arm/%s" % T)
-            return "(%s, falls %s, ansonsten %s)" % (self.expr(T, depth + 1), self.cond(depth + 1), self.expr(T, depth + 1))
+            arms = []
+            for _ in range(2):
+                dv = self.derived(T, depth + 1) if rng.random() < 0.35 else None
+                if dv is not None:
+                    self.f("role:derived-from-temporary-in-falls-arm/%s" % T)
+                    self.derived_in_scope += 1
+                arms.append(dv if dv is not None else self.expr(T, depth + 1))
+            return "(%s, falls %s, ansonsten %s)" % (arms[0], self.cond(depth + 1), arms[1])
+        if k == "derived":
+            dv = self.derived(T, depth + 1)
+            if dv is not None:
+                return dv
+            return self.expr(T, depth + 1)
         if k == "call":
             fns = [fn for fn in self.fns if fn.ret == T]
             if not fns:
@@ -241,6 +260,42 @@ class GenA:
         if k == "numtext":
             return "(%s als Text)" % self.cond_arg()
         raise ValueError(k)
+
+    def temp_of(self, T, depth):
+        """an expression of type T that is certainly a temporary (never a plain variable)"""
+        rng = self.rng
+        ks = ["lit", "call"]
+        if T in (TL, ZL, BL, VL):
+            ks += ["concat", "slice", "scalar"]
+        k = rng.choice(ks)
+        if k == "call":
+            fns = [fn for fn in self.fns if fn.ret == T]
+            c = self.call(rng.choice(fns), depth + 1) if fns else None
+            if c is not None:
+                return "(%s)" % c
+            k = "lit"
+        if k == "concat":
+            return "(%s verkettet mit %s)" % (self.expr(T, depth + 1), self.expr(T, depth + 1))
+        if k == "slice":
+            return "(%s im Bereich von 1 bis 2)" % self.expr(T, depth + 1)
+        if k == "scalar":
+            return "(%s verkettet mit %s)" % (self.expr(T, depth + 1), self.scalar_of(T, depth + 1))
+        return "(%s)" % self.lit(T, depth)
+
+    def derived(self, T, depth):
+        """a value of type T selected out of a TEMPORARY container: element of a temporary list, field of a temporary Box"""
+        ways = []
+        if T in LISTOF:
+            ways.append("elem")
+        if T in (TEXT, ZL, TL):
+            ways.append("field")
+        if not ways:
+            return None
+        if self.rng.choice(ways) == "elem":
+            self.f("op:index-temporary/%s" % LISTOF[T])
+            return "(%s an der Stelle 1)" % self.temp_of(LISTOF[T], depth)
+        self.f("op:field-of-temporary/%s" % T)
+        return "(%s von %s)" % ({TEXT: "t", ZL: "zl", TL: "tl"}[T], self.temp_of(BOX, depth))
 
     @staticmethod
     def lit_is_atomic(T):
@@ -358,14 +413,20 @@ class GenA:
             z = self.fresh("z")
             a = self.cond_arg()
             self.loop_depth += 1
+            extra = ""
+            if k in ("while", "dowhile") and rng.random() < 0.3:
+                # the condition is evaluated in a scope of its own on every iteration
+                self.f("loop:condition-with-temporaries")
+                extra = " und %s" % self.cond(1)
+                self.budget = 3
             if k == "while":
                 self.f("loop:while")
                 body = ["Erhöhe %s um 1." % z] + self.block(depth + 1)
-                out = ["Die Zahl %s ist 0." % z, "Solange %s kleiner als %s ist, mache:" % (z, a)] + ind(body)
+                out = ["Die Zahl %s ist 0." % z, "Solange (%s kleiner als %s ist)%s, mache:" % (z, a, extra)] + ind(body)
             elif k == "dowhile":
                 self.f("loop:do-while")
                 body = ["Erhöhe %s um 1." % z] + self.block(depth + 1)
-                out = ["Die Zahl %s ist 0." % z, "Mache:"] + ind(body) + ["Solange %s kleiner als %s ist." % (z, a)]
+                out = ["Die Zahl %s ist 0." % z, "Mache:"] + ind(body) + ["Solange (%s kleiner als %s ist)%s." % (z, a, extra)]
             elif k == "repeat":
                 self.f("loop:repeat")
                 out = ["Wiederhole:"] + ind(self.block(depth + 1)) + ["%s Mal." % a]
@@ -581,13 +642,15 @@ class GenM:
             ch += ["part"]
         if d < 3 and self.budget > 0:
             self.budget -= 1
-            ch += ["concat", "concat", "derive", "falls"]
+            ch += ["concat", "concat", "derive", "falls", "elemtemp"]
             if [fn for fn in self.fns if fn.ret == "T"]:
                 ch += ["call", "call"]
         k = rng.choice(ch)
         if k == "lit":
             w = self.word()
             return "(L %d)" % (len(w) + 1), '"%s"' % w, True
+        if k == "elemtemp":
+            return self.elem_of_temp(d)
         if k == "var":
             v = rng.choice(self.vars_of("T"))
             return "(V %d)" % v, "v%d" % v, False
@@ -605,9 +668,10 @@ class GenM:
             self.f("M:slice")
             return "(D %s 2)" % a[0], "(%s bis zum 1. Element)" % a[1], True
         if k == "falls":
-            a = self.text(d + 1)
+            # an arm has a scope of its own: a value derived from a temporary of the arm must leave it as a copy
+            a = self.elem_of_temp(d + 1) if rng.random() < 0.3 else self.text(d + 1)
             sn = self.snap()
-            b = self.text(d + 1)
+            b = self.elem_of_temp(d + 1) if rng.random() < 0.3 else self.text(d + 1)
             if not a[2] and not b[2]:
                 self.restore(sn)
                 w = self.word()
@@ -618,6 +682,21 @@ class GenM:
         if k == "call":
             return self.call(rng.choice([fn for fn in self.fns if fn.ret == "T"]), d)
         raise ValueError(k)
+
+    def elem_of_temp(self, d):
+        """element of a TEMPORARY list (list literal, function result, `falls`): BIN_INDEX copies it into a temporary"""
+        for _ in range(4):
+            sn = self.snap()
+            l = self.lst(d + 1)
+            if l[2]:
+                break
+            self.restore(sn)
+        else:
+            a, b = self.text(3), self.text(3)
+            l = ("(B 32 %s %s)" % (a[0], b[0]), "(eine Liste, die aus %s, %s besteht)" % (a[1], b[1]), True)
+        i = self.rng.randint(1, 2)
+        self.f("M:element-of-temporary-list")
+        return "(G %s %d)" % (l[0], i), "(%s an der Stelle %d)" % (l[1], i), True
 
     def lst(self, d=0):
         rng = self.rng
@@ -819,9 +898,14 @@ class GenM:
                 return "(i %s %s %s)" % (c[0], a[0], b[0]), ["Wenn %s, dann:" % self.as_cond(c)] + ind(a[1]) + ["Sonst:"] + ind(b[1])
             return "(i %s %s (b K))" % (c[0], a[0]), ["Wenn %s, dann:" % self.as_cond(c)] + ind(a[1])
         if k in ("while", "dowhile"):
-            c = self.effects() if self.risky == "loop-condition-temporaries" and not self.planted else ("P", None)
-            if c[1] is not None:
-                self.planted = True
+            if self.risky == "loop-condition-temporaries" and not self.planted:
+                c = self.effects()
+                if c[1] is not None:
+                    self.planted = True
+            else:
+                c = self.effects() if self.risky is None and rng.random() < 0.35 else ("P", None)
+                if c[1] is not None:
+                    self.f("M:loop-condition-with-temporaries")
             self.loop += 1
             b = self.block(d + 1)
             self.loop -= 1
@@ -1103,6 +1187,154 @@ def probes():
     return P
 
 
+# ---- values DERIVED from a temporary container: element of a temporary list, field of a temporary Kombination ----
+# The derived value must be copied (or claimed) before the scope that holds the container ends.  The scopes that end
+# early are the arms of `falls`, the right operand of und/oder, loop conditions / bounds; then every ownership role.
+DHEAD = BHEAD + """Die Funktion namen gibt eine Text Liste zurück, macht:
+	Gib eine Liste, die aus "Anna-Magdalena Musterfrau", "Bertram von und zu Beispiel", "Cäcilie" besteht zurück.
+Und kann so benutzt werden:
+	"die Namen"
+
+Die Funktion boxen gibt eine Box Liste zurück, macht:
+	Gib eine Liste, die aus (eine Box mit Text "die erste Box der Funktion boxen" und Zahlen (eine Liste, die aus 1, 2, 3 besteht)), (eine Standardbox) besteht zurück.
+Und kann so benutzt werden:
+	"die Boxen"
+
+Die Funktion variablen gibt eine Variablen Liste zurück, macht:
+	Gib eine Liste, die aus ("eine Variable mit Text darin" als Variable), ("noch eine" als Variable) besteht zurück.
+Und kann so benutzt werden:
+	"die Variablen"
+
+Die Funktion musterbox gibt eine Box zurück, macht:
+	Gib (eine Box mit Text ("Text der " verkettet mit "Musterbox") und Texten (eine Liste, die aus "erster Text in der Box", "zweiter" besteht)) zurück.
+Und kann so benutzt werden:
+	"die Musterbox"
+
+Die Funktion zahlenbox gibt eine Box zurück, macht:
+	Gib (eine Box mit Text "zb" und Zahlen (eine Liste, die aus 11, 12, 13, 14 besteht)) zurück.
+Und kann so benutzt werden:
+	"die Zahlenbox"
+
+Die Text Liste tlv ist eine Liste, die aus "globaler Listentext eins", "zwei", "drei" besteht.
+Die Box Liste blv ist eine Liste, die aus (eine Box mit Text "globale Box"), (eine Standardbox) besteht.
+Die Variablen Liste vlv ist eine Liste, die aus ("globale Variable" als Variable), ("gv2" als Variable) besteht.
+Der Text altText ist "der andere Text".
+Die Box altBox ist eine Box mit Text "die andere Box".
+Die Variable altVarText ist ("die andere Variable" als Variable).
+Die Text Liste altTextListe ist eine Liste, die aus "andere", "Liste" besteht.
+Die Zahlen Liste altZahlenListe ist eine Liste, die aus 21, 22 besteht.
+""" + "".join(
+    "\nDie Funktion id%s mit dem Parameter p vom Typ %s, gibt %s zurück, macht:\n\tGib p zurück.\nUnd kann so benutzt werden:\n\t\"id%s <p>\"\n"
+    "\nDie Funktion nimm%s mit dem Parameter p vom Typ %s, gibt nichts zurück, macht:\n\tDie Zahl lokal ist 1.\nUnd kann so benutzt werden:\n\t\"nimm%s <p>\"\n"
+    % (T, TYNAME[T], RETART[T], T, T, TYNAME[T], T) for T in (TEXT, BOX, VT, TL, ZL)) + "\n"
+
+DERIVED = {
+    "element": [
+        (TEXT, "((die Namen) an der Stelle 2)", "function-result"),
+        (TEXT, '((eine Liste, die aus ("ein Literal " verkettet mit "mit Länge"), "zwei" besteht) an der Stelle 1)', "list-literal"),
+        (TEXT, "((tlv verkettet mit tlv) an der Stelle 4)", "concatenation"),
+        (TEXT, '((tlv verkettet mit "einzelner Text am Ende") an der Stelle 4)', "concatenation-with-scalar"),
+        (TEXT, "((tlv im Bereich von 2 bis 3) an der Stelle 1)", "slice"),
+        (TEXT, '(("nur ein Text" als Text Liste) an der Stelle 1)', "cast-to-list"),
+        (BOX, "((die Boxen) an der Stelle 1)", "function-result"),
+        (BOX, "(%s an der Stelle 2)" % BVAL[BL][0], "list-literal"),
+        (BOX, "((blv verkettet mit blv) an der Stelle 3)", "concatenation"),
+        (BOX, "((blv im Bereich von 1 bis 2) an der Stelle 1)", "slice"),
+        (VT, "((die Variablen) an der Stelle 1)", "function-result"),
+        (VT, "(%s an der Stelle 1)" % BVAL[VL][0], "list-literal"),
+        (VT, "((vlv verkettet mit vlv) an der Stelle 4)", "concatenation"),
+    ],
+    "field": [
+        (TEXT, "(t von (die Musterbox))", "function-result"),
+        (TEXT, '(t von (eine Box mit Text ("ab" verkettet mit "cdefghijklmnop")))', "constructor"),
+        (TL, "(tl von (die Musterbox))", "function-result"),
+        (ZL, "(zl von (die Zahlenbox))", "function-result"),
+        (TEXT, "(t von ((die Boxen) an der Stelle 1))", "field-of-element-of-function-result"),
+        (TEXT, "((tl von (die Musterbox)) an der Stelle 1)", "element-of-field-of-function-result"),
+        (ZL, "(zl von ((blv verkettet mit (die Zahlenbox)) an der Stelle 3))", "field-of-element-of-concatenation"),
+    ],
+}
+DALT = {TEXT: "altText", BOX: "altBox", VT: "altVarText", TL: "altTextListe", ZL: "altZahlenListe"}
+DTMP = {TEXT: '("neu " verkettet mit "gebaut")', BOX: BVAL[BOX][0], VT: BVAL[VT][0], TL: BVAL[TL][0], ZL: BVAL[ZL][0]}
+DROLES = ["falls-then-arm-taken", "falls-else-arm-taken", "falls-both-arms", "falls-arm-not-taken", "falls-nested", "falls-result-consumers",
+          "und-oder-operand", "loop-condition-operand", "loop-bound-operand", "argument", "return-value", "stored", "for-each-source"]
+
+
+def derived_probes():
+    """list of (key, source): per family (element of a temporary list / field of a temporary Kombination) and role one
+    program that puts every source of the family into that role"""
+    out = []
+    use = lambda T, n: re.sub(r"\bx\b", n, USE[T])
+    for fam, sources in DERIVED.items():
+        for role in DROLES:
+            funs, main = [], []
+            for i, (T, R, how) in enumerate(sources):
+                alt, tmp, n = DALT[T], DTMP[T], "w%d" % i
+                d = lambda name, e: [decl(T, name, e), use(T, name)]
+                if role == "falls-then-arm-taken":
+                    main += d(n + "a", "(%s, falls a1 gleich 1 ist, ansonsten %s)" % (R, alt)) + d(n + "b", "(%s, falls a1 gleich 1 ist, ansonsten %s)" % (R, tmp))
+                elif role == "falls-else-arm-taken":
+                    main += d(n + "a", "(%s, falls a1 gleich 0 ist, ansonsten %s)" % (alt, R)) + d(n + "b", "(%s, falls a1 gleich 0 ist, ansonsten %s)" % (tmp, R))
+                elif role == "falls-both-arms":
+                    main += d(n + "a", "(%s, falls a1 gleich 1 ist, ansonsten %s)" % (R, R)) + d(n + "b", "(%s, falls a1 gleich 0 ist, ansonsten %s)" % (R, R))
+                elif role == "falls-arm-not-taken":
+                    main += d(n + "a", "(%s, falls a1 gleich 0 ist, ansonsten %s)" % (R, alt)) + d(n + "b", "(%s, falls a1 gleich 1 ist, ansonsten %s)" % (tmp, R))
+                elif role == "falls-nested":
+                    main += d(n + "a", "((%s, falls a2 gleich 1 ist, ansonsten %s), falls a1 gleich 1 ist, ansonsten %s)" % (R, alt, tmp))
+                    main += d(n + "b", "(%s, falls a1 gleich 0 ist, ansonsten (%s, falls a2 gleich 0 ist, ansonsten %s))" % (alt, tmp, R))
+                elif role == "falls-result-consumers":
+                    f = "(%s, falls a1 gleich 1 ist, ansonsten %s)" % (R, alt)
+                    main += [decl(T, n, alt), "Speichere %s in %s." % (f, n), use(T, n), "nimm%s %s." % (T, f),
+                             "Wenn %s gleich %s ist, dann:\n\tSchreibe die Zahl 1." % (f, alt)] + d(n + "c", "(id%s %s)" % (T, f))
+                elif role == "und-oder-operand":
+                    main += ["Wenn (a1 gleich 1 ist) und (%s gleich %s ist), dann:\n\tSchreibe die Zahl 1." % (R, alt),
+                             "Wenn (a1 gleich 0 ist) oder (%s ungleich %s ist), dann:\n\tSchreibe die Zahl 2." % (R, alt),
+                             "Wenn (%s gleich %s ist) und (%s gleich %s ist), dann:\n\tSchreibe die Zahl 3." % (R, R, alt, R),
+                             "Der Wahrheitswert %s ist (a1 gleich 0 ist) oder ((a1 gleich 1 ist) und (%s gleich %s ist))." % (n, R, R)]
+                elif role == "loop-condition-operand":
+                    main += ["Die Zahl %s ist 0." % n,
+                             "Solange (%s kleiner als 3 ist) und (%s gleich %s ist), mache:\n\tErhöhe %s um 1.\n\tWenn %s gleich 1 ist, fahre mit der Schleife fort.\n\tWenn %s gleich 2 ist, verlasse die Schleife." % (n, R, R, n, n, n),
+                             "Mache:\n\tErhöhe %s um 1.\n\tWenn %s gleich 3 ist, fahre mit der Schleife fort.\nSolange (%s kleiner als 5 ist) und (%s gleich %s ist)." % (n, n, n, R, R)]
+                elif role == "loop-bound-operand":
+                    two = "(2, falls %s gleich %s ist, ansonsten 0)" % (R, R)
+                    main += ["Die Zahl %s ist 0." % n,
+                             "Für jede Zahl i von 1 bis %s, mache:\n\tErhöhe %s um 1.\n\tWenn %s gleich 1 ist, fahre mit der Schleife fort." % (two, n, n),
+                             "Für jede Zahl i von %s bis 3 mit Schrittgröße (%s minus 1), mache:\n\tErhöhe %s um 1." % (two, two, n),
+                             "Wiederhole:\n\tErhöhe %s um 1.\n%s Mal." % (n, two)]
+                elif role == "argument":
+                    main += d(n + "a", "(id%s %s)" % (T, R)) + ["nimm%s %s." % (T, R), "id%s %s." % (T, R)]
+                    if T == TEXT:
+                        main += ["Schreibe den Text %s." % R]
+                elif role == "return-value":
+                    funs += ["Die Funktion q%s%d gibt %s zurück, macht:\n\tGib %s zurück.\nUnd kann so benutzt werden:\n\t\"q%s%d\"\n" % (fam, i, RETART[T], R, fam, i),
+                             "Die Funktion r%s%d gibt %s zurück, macht:\n\tFür jede Zahl i von 1 bis 3, mache:\n\t\tWenn i gleich 2 ist, gib %s zurück.\n\tGib %s zurück.\nUnd kann so benutzt werden:\n\t\"r%s%d\"\n" % (fam, i, RETART[T], R, alt, fam, i),
+                             "Die Funktion s%s%d gibt %s zurück, macht:\n\tGib (%s, falls a1 gleich 1 ist, ansonsten %s) zurück.\nUnd kann so benutzt werden:\n\t\"s%s%d\"\n" % (fam, i, RETART[T], R, alt, fam, i)]
+                    main += d(n + "a", "(q%s%d)" % (fam, i)) + d(n + "b", "(r%s%d)" % (fam, i)) + d(n + "c", "(s%s%d)" % (fam, i))
+                elif role == "stored":
+                    main += d(n + "a", R) + ["Speichere %s in %sa." % (R, n), use(T, n + "a")]
+                    if T in LISTOF:
+                        LT = LISTOF[T]
+                        main += [decl(LT, n + "l", "eine Liste, die aus %s, %s besteht" % (R, alt)), "Speichere %s in %sl an der Stelle 2." % (R, n),
+                                 decl(LT, n + "m", "(%s verkettet mit %s)" % (R, R)) if T != TEXT else decl(LT, n + "m", "(%s verkettet mit %s)" % (BVAL[TL][0], R)), decl(LT, n + "k", "(%sl verkettet mit %s)" % (n, R)), re.sub(r"\bx\b", n + "l", USE[LT])]
+                    else:
+                        fld = {TL: "tl", ZL: "zl"}[T]
+                        main += [decl(BOX, n + "bx", "eine Standardbox"), "Speichere %s in %s von %sbx." % (R, fld, n), decl(T, n + "m", "(%s verkettet mit %s)" % (R, R))]
+                    if T in (TEXT, BOX, ZL):
+                        main += ["Die Variable %sv ist (%s als Variable)." % (n, R)]
+                    if T == TEXT:
+                        main += [decl(TEXT, n + "c", '(%s verkettet mit (%s verkettet mit "!"))' % (R, R)), "Schreibe den Text %sc." % n]
+                elif role == "for-each-source":
+                    if T not in FOREACH:
+                        continue
+                    head = FOREACH[T][0]
+                    main += ["Die Zahl %s ist 0." % n,
+                             "%s e in %s, mache:\n\tErhöhe %s um 1.\n\tWenn %s gleich 1 ist, fahre mit der Schleife fort.\n\tWenn %s gleich 2 ist, verlasse die Schleife." % (head, R, n, n, n),
+                             "%s e in (%s, falls a1 gleich 1 ist, ansonsten %s), mache:\n\tErhöhe %s um 1." % (head, R, DALT[T], n)]
+            if main:
+                out.append(("construct=derived-from-temporary family=%s role=%s" % (fam, role), DHEAD + "\n".join(funs) + "\n" + "\n".join(main) + '\nSchreibe den Text "|ende".\n'))
+    return out
+
+
 # =================================================================================================
 # ledgers
 # =================================================================================================
@@ -1327,6 +1559,18 @@ def main():
         if not quick or any(a in key for a in asan_only) or rng.random() < 0.08:
             for o in (opts if quick else (0, 2)):
                 jobs.append(Job("B", "%s opt=%d" % (key, o), src, o, [["1"] * NARGS], asan=True, end="|ende"))
+    # ---- 2b. values derived from a temporary container, in every role (always also under ASan: a reference that
+    #          outlives its owner does not unbalance the ledger)
+    DP = derived_probes()
+    for (key, src) in DP:
+        if quick:
+            o = rng.choice((0, 2))
+            jobs.append(Job("B", "%s opt=%d" % (key, o), src, o, [["1"] * NARGS], asan=True, end="|ende"))
+            jobs.append(Job("B", "%s opt=%d" % (key, 2 - o), src, 2 - o, [["1"] * NARGS], end="|ende"))
+        else:
+            for o in (0, 1, 2):
+                jobs.append(Job("B", "%s opt=%d" % (key, o), src, o, [["1"] * NARGS], end="|ende"))
+                jobs.append(Job("B", "%s opt=%d" % (key, o), src, o, [["1"] * NARGS], asan=True, end="|ende"))
     # ---- 3. model-shared Text subset
     featM = {}
     try:
@@ -1334,14 +1578,17 @@ def main():
     except ValueError:
         scale = 1.0
     nM = max(4, int((36 if quick else 340) * scale))
+    asan_M = asan_A = 0
     for i in range(nM):
         g = GenM(rng, featM)
         src, sx = g.program()
         tapes = ["".join(rng.choice("01") for _ in range(rng.choice((20, 60)))) for _ in range(2 if quick else 4)] + ["1" * 40, "0"]
         for o in ((0, 2) if quick else (0, 1, 2)):
             jobs.append(Job("M", "stream=M", src, o, [[t] for t in tapes], sx=sx(o)))
-        if not quick and i % 3 == 0 or quick and i % 9 == 0:
-            jobs.append(Job("M", "stream=M", src, rng.choice((0, 2)), [[t] for t in tapes[:2]], sx=None, asan=True))
+        n_el = src.count(") an der Stelle")      # elements of temporaries: the sanitizer sample prefers these programs
+        if not quick and (i % 3 == 0 or (n_el and asan_M < 160)) or quick and (i % 9 == 0 or (n_el and asan_M < 8)):
+            asan_M += 1
+            jobs.append(Job("M", "stream=M", src, rng.choice((0, 2)), [[t] for t in tapes[:2] + ["1" * 40]], sx=None, asan=True))
     for risky in ("loop-condition-temporaries", "for-bound-temporaries", "for-header-temporaries", "foreach-header-temporaries"):
         for i in range(3 if quick else 20):
             g = GenM(rng, featM, risky=risky)
@@ -1359,9 +1606,10 @@ def main():
         opts = (i % 3,) if (quick or i >= 150) else (0, 1, 2)
         for o in opts:
             jobs.append(Job("A", "stream=A", src, o, argvs))
-        if (quick and i % 10 == 0) or (not quick and i % 5 == 0):
-            jobs.append(Job("A", "stream=A", src, rng.choice((0, 2)), argvs[:2], asan=True))
-    log("[c05] %d compile jobs (%d corpus, %d probes, %d M programs, %d A programs)" % (len(jobs), corpus_n, len(P), nM, nA))
+        if (quick and (i % 10 == 0 or (g.derived_in_scope and asan_A < 10))) or (not quick and (i % 5 == 0 or (g.derived_in_scope and asan_A < 260))):
+            asan_A += 1
+            jobs.append(Job("A", "stream=A", src, rng.choice((0, 2)), argvs if g.derived_in_scope else argvs[:2], asan=True))
+    log("[c05] %d compile jobs (%d corpus, %d+%d probes, %d M programs, %d A programs)" % (len(jobs), corpus_n, len(P), len(DP), nM, nA))
     run_jobs(b, sc, jobs, "j")
     # ---- judge every ledger with the extracted checker (and cross-check the checker against the Python restatement)
     allruns = [(j, r) for j in jobs if j.compiled and j.compiled["stage"] == "ok" for r in j.runs]
@@ -1409,7 +1657,7 @@ def main():
             bad = None
             if cl == "timeout":
                 stats["timeout"] += 1
-            elif cl == "laufzeitfehler" and j.stream in ("A", "M"):
+            elif cl == "laufzeitfehler" and j.stream == "A":
                 stats["laufzeitfehler"] += 1
             elif cl != "ok":
                 bad = "%s (exit %d): %s" % (cl, rc, err[-400:].decode("utf-8", "replace"))
@@ -1451,6 +1699,10 @@ def main():
             src = j.src
             if j.stream == "M" and j.risky:
                 key = "construct=%s loop=any type=Text stream=M opt=%d" % (j.risky.replace("for-header", "continue-with-header").replace("foreach-header", "continue-with-header"), j.opt)
+            elif j.stream == "B" and "derived-from-temporary" in key:
+                if shrunk < 3:
+                    shrunk += 1
+                    src = shrink_source(b, sc, j.src, j.opt, argv, j.asan, budget=40 if quick else 120, head=DHEAD)
             elif j.stream in ("A", "M"):
                 if shrunk < 3:
                     shrunk += 1
@@ -1469,7 +1721,8 @@ def main():
         ck.broken_obligation("correspondence of coq/Lower/Own.v with the compiler fails (%s) at -O %d, tape %s; program saved as %s" % (what, j.opt, argv, path),
                              (j.sx or "")[-900:] + "\n" + body[-1000:])
     ck.cov.update(dict(
-        programs=dict(corpus=corpus_n, probes=len(P), model_shared=nM, random=nA), compile_jobs=len(jobs), **stats,
+        programs=dict(corpus=corpus_n, probes=len(P), derived_from_temporary_probes=len(DP), model_shared=nM, random=nA),
+        sanitizer_programs=dict(model_shared=asan_M, random=asan_A), compile_jobs=len(jobs), **stats,
         features_random_stream=dict(sorted(featA.items())), features_model_stream=dict(sorted(featM.items())),
         opt_levels=[0, 1, 2], exhaustive=False,
         rule="a run is counted non-trivial if its ledger has at least 12 ddp_reallocate calls; distinct = distinct (program, command line, -O level, link flavour)"))
